@@ -7,7 +7,7 @@ import time
 from . import sut, wire
 
 BEHAVIOURS = ["always", "never", "stop2", "late-within", "late-beyond", "wrong-token", "unsolicited",
-              "chatty-silent", "late-long", "never", "always", "slow-register", "slow-register-silent", "cap-renegotiate"]
+              "chatty-silent", "late-long", "never", "always", "slow-register", "slow-register-silent", "cap-renegotiate", "late-once-silent"]
 
 
 class Lag(threading.Thread):
@@ -91,7 +91,19 @@ class Peer:
                 answer = (now + ((self.P + self.Q) / 2.0 if self.Q > self.P else min(self.Q * 0.5, 0.6)), tok)
             elif b == "late-beyond":
                 answer = (now + self.Q + 1.2, tok)
-            if answer is None or b == "late-beyond":
+            elif b == "late-once-silent":
+                # pong_timeout > ping_timeout: the first PING is answered only after the second has arrived (still inside
+                # the first one's pong_timeout: a valid answer), then silence - the next unanswered PING starts the clock
+                if self.Q > self.P:
+                    if len(self.server_pings) == 2 and self.answered == 0:
+                        answer = (now + 0.3, tok)
+                        self.first_unanswered = None
+                        self.reset_unanswered = True
+                elif self.answered < 2:
+                    answer = (now, tok)
+            if b == "late-once-silent" and self.Q > self.P and len(self.server_pings) < 2:
+                pass  # PING #1 is answered by the single late PONG
+            elif answer is None or b == "late-beyond":
                 if self.first_unanswered is None:
                     self.first_unanswered = now
             if answer is not None:
